@@ -135,15 +135,16 @@ class MergeAdapter:
 
 
 def shape_obs(libs, err, act, expected=False):
-    """The observation, target first.  On a refusal the statement speaks about the target ("rejected with an error leaving
-    the target unchanged"): the expected observation then carries no entry for `other`, so it is not compared.
+    """The observation: target first, then the bystanders, `other` last, so that a divergence is named after the target
+    whenever the target diverges ("rejected with an error leaving the target unchanged").  `other` is compared at a refusal
+    too: a refused merge that alters it (chi flags, nuclides re-homed to the target) leaves a library whose content is no
+    longer that of its source, which every later merge of that library inherits -- keys ...:other:<group>.
     The outcome is compared as accepted / refused (the specification's refusal kind names the violation keys only)."""
     out = {"err": "refused" if err else ""}
     if act is not None and "t" in act:
         out["target"] = libs[act["t"]]
-        if not (expected and err):
-            out["other"] = libs[act["o"]]
         out["rest"] = [x for i, x in enumerate(libs) if i not in (act["t"], act["o"])]
+        out["other"] = libs[act["o"]]
     else:
         out["rest"] = libs
     return out
@@ -328,15 +329,29 @@ def merge_traces(ntraces, nev, seed):
     for t in range(ntraces):
         src = [random_desc(rng) for _ in range(TRACE_NSRC)]
         attempts = [(rng.random(), rng.random()) for _ in range(nev)]
-        traces.append(record_trace(ad, "m%d" % t, src, attempts))
+        # two families: every attempt recorded (refusals included) / successful merges only
+        traces.append(record_trace(ad, "%s%d" % ("a" if t % 3 == 2 else "m", t), src, attempts, accepted_only=(t % 3 == 2)))
     return traces
 
 
-def record_trace(ad, tid, src, attempts):
-    """Run one history on the real code.  attempts: pairs of numbers in [0,1) choosing target / other among the libraries
-    that are still alive (so that a recorded trace can be re-run exactly)."""
+def would_refuse(ad, src, accepted, ti, oi):
+    """Try target.merge(other) on a throw-away copy of the world (sources re-read, the accepted merges so far re-applied):
+    no oracle, the real code says whether it refuses."""
     w = ad.build({"src": src})
-    S = sources()
+    for a in accepted:
+        ad.merge(w, a["t"], a["o"])
+    try:
+        return bool(ad.merge(w, ti, oi))
+    except Exception:  # noqa: BLE001  an escaping exception is recorded by the real attempt
+        return False
+
+
+def record_trace(ad, tid, src, attempts, accepted_only=False):
+    """Run one history on the real code.  attempts: pairs of numbers in [0,1) choosing target / other among the libraries
+    that are still alive (so that a recorded trace can be re-run exactly).  accepted_only: an attempt the real code refuses
+    (found out on a throw-away copy) is skipped, so the history consists of successful merges only and reaches libraries
+    merged from many sources whatever a refused merge may leave behind."""
+    w = ad.build({"src": src})
     ev = []
     for x, y in attempts:
         alive = [i for i, lib in enumerate(w["libs"]) if lib.__dict__]
@@ -346,17 +361,16 @@ def record_trace(ad, tid, src, attempts):
         rest = [i for i in alive if i != ti]
         oi = rest[int(y * len(rest))]
         a = {"n": "merge", "t": ti, "o": oi}
-        pre_other = G.project_library(w["libs"][oi], S, w["nsrc"], ad.labels)
+        if accepted_only and would_refuse(ad, src, [e["a"] for e in ev], ti, oi):
+            continue
         try:
             err = ad.merge(w, ti, oi)
             libs = ad.project_libs(w)
-            if err:
-                libs[oi] = pre_other     # `other` is not observed at a refusal (see shape_obs)
             ev.append({"a": a, "post": {"libs": libs, "err": err, "cls": w["cls"]}})
         except Exception as ex:  # noqa: BLE001  an escaping exception ends the history; TLC rejects the event
             ev.append({"a": a, "post": {"libs": [], "err": "exception %s: %s" % (type(ex).__name__, str(ex)[:160])}})
             break
-    return {"id": tid, "src": src, "attempts": attempts, "ev": ev}
+    return {"id": tid, "src": src, "attempts": attempts, "accepted_only": accepted_only, "ev": ev}
 
 
 def trace_verdicts(bad):
@@ -377,10 +391,7 @@ def trace_verdicts(bad):
         elif exp:
             act = {"n": "MergeRefused" if exp["err"] else "Merge", "t": a.get("t"), "o": a.get("o")}
             go = shape_obs(post.get("libs", []), post.get("err"), act)
-            # `other` was not looked at when THIS call was refused, but the recorder's entry for it is its state before the
-            # call: a difference there was made by an earlier refused merge and shows only now
-            why = (rp.diff(shape_obs(exp["libs"], exp["err"], act, expected=True), go)
-                   or rp.diff(shape_obs(exp["libs"], exp["err"], act), go) or ".?: recorded state is not the specification's")
+            why = rp.diff(shape_obs(exp["libs"], exp["err"], act, expected=True), go) or ".?: recorded state is not the specification's"
             key = merge_key({"action": act, "first_difference": why, "kind": exp["err"]})
         else:
             key, why = "trace:merge:unmatched", "no step of the specification matches"
@@ -396,10 +407,17 @@ def run_merge_traces(rep, thorough, seed):
     bad, stats = tracecheck.validate("LibraryMerge_trace", "LibraryMerge_trace.cfg", MODDIR, traces, timeout=3000)
     rep.add_tlc("trace-validation:merge", stats["tlc"])
     nref = sum(1 for t in traces for e in t["ev"] if e["post"]["err"])
+    nacc = [t for t in traces if t["accepted_only"]]
+    lost = sum(len(b["trace"]["ev"]) - b["matched"] - 1 for b in bad)
+    lost_acc = sum(len(b["trace"]["ev"]) - b["matched"] - 1 for b in bad if b["trace"].get("accepted_only"))
     rep.add_traces("merge-histories", len(traces), sum(len(t["ev"]) for t in traces),
                    "seeded random scenarios of %d generated source libraries over %d labels, <= 9 random merge attempts each, run on "
                    "the real code; the projection of every library after every call must be a step of LibraryMerge" % (TRACE_NSRC, TRACE_NLAB))
-    rep.note("merge histories: %d events, %d of them refusals" % (sum(len(t["ev"]) for t in traces), nref))
+    rep.note("merge histories: %d events, %d of them refusals; %d histories (%d events) consist of successful merges only" % (
+        sum(len(t["ev"]) for t in traces), nref, len(nacc), sum(len(t["ev"]) for t in nacc)))
+    if bad:
+        rep.note("%d histories rejected; %d recorded events after the rejected one were not validated (%d of them in the "
+                 "successful-merges-only histories)" % (len(bad), lost, lost_acc))
     if nref == 0 or nref == sum(len(t["ev"]) for t in traces):
         raise tlc.MachineryError("vacuous: the recorded histories contain %d refusals out of %d events" % (nref, sum(len(t["ev"]) for t in traces)))
     rep.sample({"kind": "merge-trace", "id": traces[0]["id"], "sources": traces[0]["src"], "events": [e["a"] for e in traces[0]["ev"]],
@@ -531,7 +549,8 @@ def run(rep, tier, seed):
         "neutron velocity: the first merged library that has one provides it (documented 'just use the first one'); that one is "
         "present iff a neutron library was merged is order-independent",
         "every generated PMATRX nuclide carries neutron heating data (two data-free entries of one label would merge silently)",
-        "at a refused merge the target and the bystanders are compared, `other` is not (the statement constrains the target)",
+        "at a refused merge the target is compared first, then the bystanders, then `other` (a refused merge that alters `other` "
+        "leaves a library that is no longer what its source gave; keys ...:other:...)",
         "a refusal is any of ImmutablePropertyError (group structures / dose factors), OSError (file metadata), AttributeError or "
         "numpy's ValueError (same kind of data for one label); which one is raised when several conflicts coexist is not compared",
         "zero for an empty composition = zero vector (not None, not an exception); a nuclide with non-zero density that the library "
@@ -553,7 +572,7 @@ def replay(payload):
     if part == "merge" and direction == "trace":
         tr = payload["trace"]
         ad = MergeAdapter(nlab=TRACE_NLAB)
-        again = record_trace(ad, tr["id"], tr["src"], [tuple(x) for x in tr["attempts"]])
+        again = record_trace(ad, tr["id"], tr["src"], [tuple(x) for x in tr["attempts"]], tr.get("accepted_only", False))
         bad, _ = tracecheck.validate("LibraryMerge_trace", "LibraryMerge_trace.cfg", MODDIR, [again], timeout=600)
         for key, text, _p in trace_verdicts(bad):
             print(key, "\n ", text)
@@ -731,15 +750,15 @@ def selftest():
     g = globals()
     orig_record = g["record_trace"]
 
-    def record_drops_event(ad, tid, src, attempts):
-        tr = orig_record(ad, tid, src, attempts)
+    def record_drops_event(ad, tid, src, attempts, accepted_only=False):
+        tr = orig_record(ad, tid, src, attempts, accepted_only)
         ok = [i for i, e in enumerate(tr["ev"][:-1]) if not e["post"]["err"]]
         if ok and tid.endswith("7"):
             del tr["ev"][ok[0]]
         return tr
 
-    def record_corrupts_field(ad, tid, src, attempts):
-        tr = orig_record(ad, tid, src, attempts)
+    def record_corrupts_field(ad, tid, src, attempts, accepted_only=False):
+        tr = orig_record(ad, tid, src, attempts, accepted_only)
         if tid.endswith("3"):
             for e in tr["ev"]:
                 for lib in e["post"]["libs"]:
